@@ -43,6 +43,87 @@ static bool ConvertersByProduct(Source& s, const std::string& bytes, std::string
 	return true;
 }
 
+// ISO-8601-shaped texts from a small grammar with extreme fields (the kind of cell a date column of a damaged file holds)
+static std::string IsoNumber(Source& s)
+{
+	static const char* nums[] = { "0", "1", "00", "7", "59", "60", "61", "99", "1970", "2000", "0000", "9999", "10000", "292277026596", "106751991167300",
+		"2562047788015215", "153722867280912930", "9223372036854775807", "9223372036854775808", "18446744073709551615", "18446744073709551616", "99999999999999999999" };
+	if (s.chance(sim::L_FAULT, 1, 4)) { std::string r; const uint32_t n = 1 + s.draw(sim::L_FAULT, 21); for (uint32_t i = 0; i < n; ++i) r.push_back(static_cast<char>('0' + s.draw(sim::L_FAULT, 10))); return r; }
+	return s.pick(sim::L_FAULT, nums);
+}
+static std::string IsoFraction(Source& s)
+{
+	static const uint32_t lens[] = { 0, 1, 3, 6, 9, 10, 11, 12, 19, 25 };
+	const uint32_t n = s.pick(sim::L_FAULT, lens);
+	if (n == 0) return s.chance(sim::L_FAULT, 1, 4) ? "." : "";
+	const uint32_t zeros = s.chance(sim::L_FAULT, 1, 2) ? s.draw(sim::L_FAULT, n + 1) : 0;   // zero padding in front
+	std::string r = s.chance(sim::L_FAULT, 1, 8) ? "," : ".";
+	for (uint32_t i = 0; i < n; ++i) r.push_back(i < zeros ? '0' : static_cast<char>('0' + s.draw(sim::L_FAULT, 10)));
+	return r;
+}
+static std::string IsoText(Source& s)
+{
+	std::string r;
+	if (s.chance(sim::L_FAULT, 1, 2))
+	{
+		// date-time
+		static const char* signs[] = { "", "", "", "-", "+" };
+		static const char* two[] = { "01", "02", "12", "00", "13", "28", "29", "30", "31", "32", "23", "24", "59", "60", "61", "99", "1", "001" };
+		r = s.pick(sim::L_FAULT, signs);
+		r += s.chance(sim::L_FAULT, 1, 2) ? IsoNumber(s) : std::string(s.chance(sim::L_FAULT, 1, 2) ? "2000" : "1600");
+		r += "-"; r += s.pick(sim::L_FAULT, two); r += "-"; r += s.pick(sim::L_FAULT, two);
+		if (!s.chance(sim::L_FAULT, 1, 8))
+		{
+			r += s.chance(sim::L_FAULT, 1, 8) ? " " : "T";
+			r += s.pick(sim::L_FAULT, two); r += ":"; r += s.pick(sim::L_FAULT, two); r += ":"; r += s.pick(sim::L_FAULT, two);
+			r += IsoFraction(s);
+		}
+		static const char* zones[] = { "Z", "Z", "", "z", "+01:00", "-00:00", "+24:00", "+0100" };
+		r += s.pick(sim::L_FAULT, zones);
+	}
+	else
+	{
+		// duration
+		static const char* signs[] = { "", "", "-", "+" };
+		r = s.pick(sim::L_FAULT, signs);
+		r += "P";
+		if (s.chance(sim::L_FAULT, 1, 4)) r += IsoNumber(s) + "W";
+		if (s.chance(sim::L_FAULT, 1, 2)) r += IsoNumber(s) + "D";
+		if (s.chance(sim::L_FAULT, 3, 4))
+		{
+			r += "T";
+			if (s.chance(sim::L_FAULT, 1, 2)) r += IsoNumber(s) + "H";
+			if (s.chance(sim::L_FAULT, 1, 2)) r += IsoNumber(s) + "M";
+			if (s.chance(sim::L_FAULT, 1, 2)) r += IsoNumber(s) + IsoFraction(s) + "S";
+		}
+	}
+	// occasionally one more byte-level accident on top
+	if (!r.empty() && s.chance(sim::L_FAULT, 1, 6)) r[s.draw(sim::L_FAULT, static_cast<uint32_t>(r.size()))] = static_cast<char>(s.draw(sim::L_FAULT, 128));
+	return r;
+}
+
+static bool ChronoConverters(Source& s, std::string& bad)
+{
+	using namespace std::chrono;
+	for (int k = 0; k < 2; ++k)
+	{
+		const std::string text = IsoText(s);
+		const std::string_view sv(text);
+		if (!ConvOne<seconds>(sv, bad) || !ConvOne<nanoseconds>(sv, bad) || !ConvOne<milliseconds>(sv, bad) || !ConvOne<minutes>(sv, bad) || !ConvOne<hours>(sv, bad)
+			|| !ConvOne<duration<int32_t>>(sv, bad)
+			|| !ConvOne<system_clock::time_point>(sv, bad) || !ConvOne<time_point<system_clock, seconds>>(sv, bad) || !ConvOne<time_point<system_clock, milliseconds>>(sv, bad)
+			|| !ConvOne<time_point<system_clock, hours>>(sv, bad) || !ConvOne<BitSerializer::CRawTime>(sv, bad))
+		{
+			bad += " for text " + text;
+			return false;
+		}
+		const std::u16string wide(text.begin(), text.end());
+		CallResult r = Guarded([&] { (void)BitSerializer::Convert::To<system_clock::time_point>(std::u16string_view(wide)); (void)BitSerializer::Convert::To<seconds>(std::u16string_view(wide)); });
+		if (!r.isStd) { bad = "non-std exception for text " + text; return false; }
+	}
+	return true;
+}
+
 static std::string NestBomb(Source& s, int archive)
 {
 	static const uint32_t depths[] = { 50, 500, 3000, 20000, 60000 };
@@ -224,6 +305,7 @@ Outcome RunC02(RunCtx& ctx)
 
 	std::string bad;
 	if (!ConvertersByProduct(s, bytes, bad)) return Violation("WRONG_EXCEPTION", "archive=" + an + " what=converter", bad);
+	if (!ChronoConverters(s, bad)) return Violation("WRONG_EXCEPTION", "archive=" + an + " what=chrono_converter", bad);
 	return out;
 }
 
